@@ -7,6 +7,8 @@ import math
 import numpy as np
 from hypothesis import strategies as st
 
+from mv import hperm
+
 from mv import geom
 
 ALPHABET = ["C", "N", "O", "H"]
@@ -17,7 +19,7 @@ GRID = 64.0
 
 
 def grid_float(lo, hi):
-    return st.integers(int(math.ceil(lo * GRID)), int(math.floor(hi * GRID))).map(lambda k: k / GRID)
+    return hperm.integers(int(math.ceil(lo * GRID)), int(math.floor(hi * GRID))).map(lambda k: k / GRID)
 
 
 @st.composite
@@ -64,22 +66,22 @@ def pattern(draw, classes=None, max_atoms=6, alphabet=None, min_atoms=1):
         pos = np.array([[draw(grid_float(-ext, ext)) for _ in range(3)]])
         els = [draw(el)]
     elif cls == "collinear":
-        n = draw(st.integers(max(2, min_atoms), min(4, max_atoms)))
-        d = np.array([draw(st.integers(-3, 3)), draw(st.integers(-3, 3)), draw(st.integers(-3, 3))], float)
+        n = draw(hperm.integers(max(2, min_atoms), min(4, max_atoms)))
+        d = np.array([draw(hperm.integers(-3, 3)), draw(hperm.integers(-3, 3)), draw(hperm.integers(-3, 3))], float)
         if not d.any():
             d = np.array([1.0, 0, 0])
-        d = d / GRID * draw(st.integers(8, 24))
-        ks = sorted(draw(st.sets(st.integers(-6, 6), min_size=n, max_size=n)))
+        d = d / GRID * draw(hperm.integers(8, 24))
+        ks = sorted(draw(st.sets(hperm.integers(-6, 6), min_size=n, max_size=n)))
         step = max(1.0, 0.6 / np.linalg.norm(d))
         pos = np.array([k * step * d for k in ks])
-        order = draw(st.permutations(range(n)))
+        order = draw(hperm.permutations(range(n)))
         pos = pos[list(order)]
         els = [draw(el) for _ in range(n)]
     elif cls == "rod":
         # linker-like: the two end atoms lie exactly on a signed coordinate axis (as in hand-drawn CML files), inner
         # atoms have transverse offsets; the atom order decides the sign of the automatically chosen axis
-        n = draw(st.integers(max(3, min_atoms), min(5, max(3, max_atoms))))
-        axis = draw(st.integers(0, 2))
+        n = draw(hperm.integers(max(3, min_atoms), min(5, max(3, max_atoms))))
+        axis = draw(hperm.integers(0, 2))
         L = draw(grid_float(1.5, 4.0))
         pos = np.zeros((n, 3))
         pos[1, axis] = L
@@ -89,7 +91,7 @@ def pattern(draw, classes=None, max_atoms=6, alphabet=None, min_atoms=1):
             pos[k, (axis + 2) % 3] = draw(grid_float(-0.8, 0.8))
         pos = pos + np.array([draw(grid_float(-2, 2)) for _ in range(3)])
         pos = _separate(pos)
-        order = list(draw(st.permutations(range(n))))
+        order = list(draw(hperm.permutations(range(n))))
         pos = pos[order]
         els = [draw(el) for _ in range(n)]
     elif cls == "mirror-pair":
@@ -98,19 +100,19 @@ def pattern(draw, classes=None, max_atoms=6, alphabet=None, min_atoms=1):
         a_, b_ = draw(grid_float(0.5, 1.2)), draw(grid_float(0.5, 1.5))
         pos = [[0, 0, 0], [a_, b_, 0], [a_, -b_, 0], [draw(grid_float(-1.5, -0.6)), 0, draw(grid_float(0.6, 1.5))],
                [draw(grid_float(0.5, 1.5)), 0, draw(grid_float(-1.8, -0.8))]]
-        others = draw(st.permutations(["C", "N", "O"]))
+        others = draw(hperm.permutations(["C", "N", "O"]))
         els = [others[0], "H", "H", others[1], others[2]]
-        n = draw(st.integers(4, 5)) if max_atoms >= 5 else 4
+        n = draw(hperm.integers(4, 5)) if max_atoms >= 5 else 4
         pos, els = pos[:n], els[:n]
-        order = list(draw(st.permutations(range(n))))
+        order = list(draw(hperm.permutations(range(n))))
         pos = np.array(pos, float)[order]
         els = [els[i] for i in order]
     elif cls == "near-collinear":
-        n = draw(st.integers(max(3, min_atoms), min(4, max(3, max_atoms))))
-        ks = sorted(draw(st.sets(st.integers(-4, 4), min_size=n, max_size=n)))
+        n = draw(hperm.integers(max(3, min_atoms), min(4, max(3, max_atoms))))
+        ks = sorted(draw(st.sets(hperm.integers(-4, 4), min_size=n, max_size=n)))
         pos = np.array([[k * 0.75, 0.0, 0.0] for k in ks])
-        j = draw(st.integers(0, n - 1))
-        pos[j, 1] += draw(st.integers(1, 6)) / GRID
+        j = draw(hperm.integers(0, n - 1))
+        pos[j, 1] += draw(hperm.integers(1, 6)) / GRID
         R = draw(random_rotation())
         pos = np.round(pos @ R.T * GRID) / GRID
         els = [draw(el) for _ in range(n)]
@@ -143,11 +145,11 @@ def pattern(draw, classes=None, max_atoms=6, alphabet=None, min_atoms=1):
             els = [a, a, a, a]
         if len(pos) > max_atoms:
             pos, els = pos[:max_atoms], els[:max_atoms]
-        order = list(draw(st.permutations(range(len(pos)))))
+        order = list(draw(hperm.permutations(range(len(pos)))))
         pos = pos[order]
         els = [els[i] for i in order]
     elif cls == "chiral":
-        n = draw(st.integers(4, max(4, max_atoms)))
+        n = draw(hperm.integers(4, max(4, max_atoms)))
         a_, b_, c_ = draw(grid_float(0.8, 2.5)), draw(grid_float(0.8, 2.5)), draw(grid_float(0.8, 2.5))
         pos = [[0, 0, 0], [a_, 0, 0], [0, b_, 0], [0, 0, c_]]
         for _ in range(n - 4):
@@ -160,7 +162,7 @@ def pattern(draw, classes=None, max_atoms=6, alphabet=None, min_atoms=1):
             if abs(a_ - b_) < 0.25:
                 pos[1][0] += 0.5
     else:  # generic / planar
-        n = draw(st.integers(max(2, min_atoms), max_atoms))
+        n = draw(hperm.integers(max(2, min_atoms), max_atoms))
         if n > 8:
             ext = 3.5
         pos = [[draw(grid_float(-ext, ext)), draw(grid_float(-ext, ext)),
@@ -184,7 +186,7 @@ def cell_for(draw, min_width, classes=None, tightness=None):
     min_width = max(min_width, 1.0)
     if cls in ("ortho", "ortho-permuted"):
         fs = [f, draw(st.sampled_from(tightness or TIGHTNESS)), draw(st.sampled_from(tightness or TIGHTNESS))]
-        order = draw(st.permutations(range(3)))
+        order = draw(hperm.permutations(range(3)))
         diag = [min_width * fs[order[i]] * (1 + 1e-3) for i in range(3)]
         cell = np.diag(diag)
         signs = "000"
@@ -234,7 +236,7 @@ def pose(draw, ppos, classes=None):
     if cls == "identity":
         return np.eye(3), cls
     if cls == "axis":
-        return geom.axis_rotations()[draw(st.integers(0, 23))], cls
+        return geom.axis_rotations()[draw(hperm.integers(0, 23))], cls
     # axis of the pattern = farthest pair
     d = ppos[:, None] - ppos[None]
     dd = (d ** 2).sum(-1)
@@ -327,7 +329,7 @@ def hints(draw, pat, force_form=None):
     form = force_form or draw(st.sampled_from(hint_forms(n)))
     if form == "none":
         return [None, None, None], form
-    idx = st.integers(0, n - 1)
+    idx = hperm.integers(0, n - 1)
     # index 0 is over-sampled (falsy-zero handling is the obvious hazard)
     first = draw(st.one_of(st.just(0), idx))
     if form == "ap1":
@@ -404,7 +406,7 @@ def planted(draw, max_copies=4, pattern_classes=None, cell_classes=None, with_de
     h, hform = draw(hints(pat)) if with_hints else ([None, None, None], "none")
     ap1, ap2, op = effective_hints(ppos, h)
     amp = lever_bound(ppos, ap1, ap2, op) if n > 1 else 2.0
-    K = draw(st.integers(min_copies, max_copies))
+    K = draw(hperm.integers(min_copies, max_copies))
     spos, sels, copies = [], [], []
     # crowding bound (construction, not rejection): combinatorial ambiguity explodes for both mofun and the reference
     # when many same-element atoms sit within a few tolerances of each other
@@ -425,7 +427,7 @@ def planted(draw, max_copies=4, pattern_classes=None, cell_classes=None, with_de
         sels += list(pat["els"])
     decoys = []
     if with_decoys:
-        nd = draw(st.integers(0, 3))
+        nd = draw(hperm.integers(0, 3))
         for _ in range(nd):
             if len(spos) + n > n_max:
                 break
@@ -433,7 +435,7 @@ def planted(draw, max_copies=4, pattern_classes=None, cell_classes=None, with_de
             R, _ = draw(pose(ppos, classes=["random", "axis"]))
             af, _ = draw(anchor_frac())
             if kind == "loose" or n == 1:
-                m = draw(st.integers(1, 3))
+                m = draw(hperm.integers(1, 3))
                 for _ in range(m):
                     f = [draw(st.floats(0, 0.999)) for _ in range(3)]
                     spos.append(geom.cart(cell, f).tolist())
@@ -443,7 +445,7 @@ def planted(draw, max_copies=4, pattern_classes=None, cell_classes=None, with_de
             q = ppos.copy()
             els = list(pat["els"])
             if kind == "near-miss":
-                j = draw(st.integers(0, n - 1))
+                j = draw(hperm.integers(0, n - 1))
                 u = draw(unit_vector())
                 q[j] = q[j] + u * atol * draw(st.floats(4.0, 12.0))
             elif kind == "out-of-plane":
@@ -454,29 +456,29 @@ def planted(draw, max_copies=4, pattern_classes=None, cell_classes=None, with_de
                 u_, s_, vt = np.linalg.svd(c0)
                 if len(q) >= 3 and s_[-1] < 1e-6 * max(1.0, s_[0]):
                     nrm = vt[-1]
-                    j = draw(st.integers(0, n - 1))
+                    j = draw(hperm.integers(0, n - 1))
                     q[j] = q[j] + nrm * atol * draw(st.floats(*oop_range)) * draw(st.sampled_from([-1.0, 1.0]))
                 else:
                     kind = "near-miss"
-                    j = draw(st.integers(0, n - 1))
+                    j = draw(hperm.integers(0, n - 1))
                     q[j] = q[j] + draw(unit_vector()) * atol * draw(st.floats(4.0, 12.0))
             elif kind == "mirror":
                 q[:, 0] = -q[:, 0]
             elif kind == "element":
-                j = draw(st.integers(0, n - 1))
+                j = draw(hperm.integers(0, n - 1))
                 other = [e for e in ALPHABET + ["Cl", "Na", "Si"] if e != els[j]]
                 els[j] = draw(st.sampled_from(other))
             w, _, _ = place(cell, q, R, af, np.zeros((n, 3)))
             spos += w.tolist()
             sels += els
             decoys.append(kind)
-    nby = draw(st.integers(min(1, bystanders), bystanders)) if bystanders else 0
+    nby = draw(hperm.integers(min(1, bystanders), bystanders)) if bystanders else 0
     for _ in range(nby):
         # bystanders of elements that occur in no pattern: they can be part of no match
         f = [draw(st.floats(0, 0.999)) for _ in range(3)]
         spos.append(geom.cart(cell, f).tolist())
         sels.append(draw(st.sampled_from(["Zr", "Cu", "S"])))
-    seeds = [draw(st.integers(0, 2 ** 31 - 1)), draw(st.integers(0, 2 ** 31 - 1))]
+    seeds = [draw(hperm.integers(0, 2 ** 31 - 1)), draw(hperm.integers(0, 2 ** 31 - 1))]
     meta = dict(cmeta)
     meta.update({"pattern_cls": pat["cls"], "copies": copies, "decoys": decoys, "hint_form": hform})
     return {"cell": cell, "spos": spos, "sels": sels, "ppos": ppos.tolist(), "pels": list(pat["els"]), "atol": atol,
